@@ -172,6 +172,9 @@ def key_of(clause, site, input_key=""):
         return "exception:%s" % site
     if clause.startswith("Render."):
         return "%s:%s" % (clause.lower().replace(".", "-"), site)
+    if "|" in clause:      # WF clauses carry the diagnostic's first words: "WF.x|Potential range of"
+        clause, what = clause.split("|", 1)
+        return "%s@%s:%s" % (clause, site, what)
     return "%s@%s" % (clause, site)
 
 
@@ -278,7 +281,7 @@ def corruption_selftest(chk, sc, streams):
     verdicts, _ = validate_streams(chk, sc, [path], part="corruption-selftest")
     blamed = {}
     for v in verdicts:
-        blamed.setdefault(v["tid"], set()).update(c for c, _s in v["clauses"])
+        blamed.setdefault(v["tid"], set()).update(c.split("|")[0] for c, _s in v["clauses"])
     missed = [n for n, x, _e in cases if x not in blamed.get("selftest:" + n, set())]
     chk.extra["corruption_selftest"] = {"corruptions": len(cases), "rejected": len(cases) - len(missed)}
     if missed:
